@@ -1,4 +1,5 @@
 mod path;
+mod probe;
 mod util;
 
 fn main() {
@@ -11,6 +12,7 @@ fn main() {
     let mut out = util::Out::new();
     match cmd {
         "path" => path::run(tier, seed, &mut out),
+        "probe" => probe::run(&args[2..]),
         _ => {
             eprintln!("unknown command {}", cmd);
             std::process::exit(2);
